@@ -4,7 +4,7 @@ From Coq Require Import List Arith Bool.
 From M Require Import Base Flat FlatSpec.
 From P Require Import FlatP FlatOrder FlatMay.
 From M Require Hsm.
-From P Require HsmMay.
+From P Require HsmMay HsmIff.
 Import ListNotations.
 
 (* Purity: for every machine whose transitions all have registered destinations, every
@@ -68,3 +68,48 @@ Theorem C12_hsm_pure :
     f' = f /\ Forall (fun it => HsmMay.may_slot (it_slot it) = true) tr.
 Proof. exact HsmMay.hsm_may_pure. Qed.
 Print Assumptions C12_hsm_pure.
+
+(* Prediction on hierarchical machines (any state tree, parallel regions, transitions inherited
+   from ancestors, declared globally or inside state definitions): with deterministic,
+   non-raising callbacks, in every configuration with unique sibling names, whenever the
+   trigger returns normally (b) without an internal error having been routed to on_exception
+   handlers, may_<event> returns exactly b - and leaves the configuration alone.  [HsmIff.avail]
+   is the readable middle: some scope declares for an ACTIVE source a transition of the event
+   whose destination is registered and whose checks pass. *)
+Theorem C12_hsm_iff :
+  forall (hm : Hsm.hmachine) (ev : env) (c : ctx) (e : event) (p p' : nat) (f : Hsm.forest)
+         tr1 f1 r1 tr2 f2 (b : bool),
+    (forall cb q, r_raise (ev cb q) = None) -> (forall cb p q, ev cb p = ev cb q) ->
+    HsmSpec.uniq f = true ->
+    Hsm.can_trigger hm ev c e p f = (tr1, f1, r1) ->
+    Hsm.trigger_event hm ev c e p' f = (tr2, f2, inr b) ->
+    Forall (fun it => it_slot it <> SOnException) tr2 ->
+    r1 = inr b /\ f1 = f.
+Proof. intros hm ev c e p p' f tr1 f1 r1 tr2 f2 b NR DET. exact (HsmIff.hsm_may_iff hm ev c e NR DET p p' f tr1 f1 r1 tr2 f2 b). Qed.
+Print Assumptions C12_hsm_iff.
+
+Theorem C12_hsm_may_characterisation :
+  forall (hm : Hsm.hmachine) (ev : env) (c : ctx) (e : event) (p : nat) (f : Hsm.forest),
+    (forall cb q, r_raise (ev cb q) = None) -> (forall cb p q, ev cb p = ev cb q) ->
+    HsmSpec.uniq f = true ->
+    exists tr b, Hsm.can_trigger hm ev c e p f = (tr, f, inr b) /\ (b = true <-> HsmIff.avail hm ev e f).
+Proof. intros hm ev c e p f NR DET. exact (HsmIff.may_iff_avail hm ev c e NR DET p f). Qed.
+Print Assumptions C12_hsm_may_characterisation.
+
+(* non-vacuity: parallel regions 2 and 3 of state 1; the event is declared inside region 3 for its
+   child 5 (blocked by a failing condition) and globally for 1_2_4 (passes): may_ is True and
+   the trigger executes *)
+Example C12_hsm_nonvacuous :
+  let hm := Hsm.mkHM
+      [Hsm.SDef 1 [] [] [] false None [2; 3] []
+         [Hsm.SDef 2 [] [] [] false None [4] [] [Hsm.SDef 4 [] [] [] false None [] [] []; Hsm.SDef 6 [] [] [] false None [] [] []];
+          Hsm.SDef 3 [] [] [] false None [5] [(0, [Hsm.mkHT [5] (Some [5]) [] [(9, true)] [] []])]
+            [Hsm.SDef 5 [] [] [] false None [] [] []]]]
+      [(0, [Hsm.mkHT [1; 2; 4] (Some [1; 2; 6]) [] [(8, true)] [] []])] [] [] [] [] [] [] false false in
+  let ev : env := fun cb _ => mkReply (negb (Nat.eqb cb 9)) None [] in
+  let f := [Hsm.Node 1 [Hsm.Node 2 [Hsm.Node 4 []]; Hsm.Node 3 [Hsm.Node 5 []]]] in
+  HsmSpec.uniq f = true /\
+  snd (Hsm.can_trigger hm ev (mkCtx 0 0 false) 0 0 f) = inr true /\
+  snd (Hsm.trigger_event hm ev (mkCtx 0 0 false) 0 0 f) = inr true /\
+  snd (fst (Hsm.trigger_event hm ev (mkCtx 0 0 false) 0 0 f)) = [Hsm.Node 1 [Hsm.Node 2 [Hsm.Node 6 []]; Hsm.Node 3 [Hsm.Node 5 []]]].
+Proof. vm_compute. repeat split; reflexivity. Qed.
